@@ -45,9 +45,9 @@ Fixpoint douts_bad (m o : list dout) (idx : nat) : list nat :=
 Definition dt_bad (ops : list dop) (obs : list dout) : list nat :=
   douts_bad (d_outs ops d_init) obs O.
 
-(* histories generated under the fresh-name discipline: the guard of
-   C20_dash_tree_read_current_fresh_names must hold on the real (accepted) history, the model must
-   reproduce every answer, and every GetDash answer of the model is the info the tree determines *)
+(* every real (accepted) history must keep the tree well formed (the fuel of the model's walks is
+   then never what ends them), the model must reproduce every answer, and every GetDash answer of
+   the model is the info the tree determines (redundant with C20_dash_tree_read_current) *)
 Fixpoint spec_gets_bad (ops : list dop) (s : dstate) (idx : nat) : list nat :=
   match ops with
   | [] => []
@@ -63,6 +63,6 @@ Fixpoint spec_gets_bad (ops : list dop) (s : dstate) (idx : nat) : list nat :=
      end) ++ spec_gets_bad r (fst (d_step s o)) (S idx)
   end.
 
-Definition dt_bad_fresh (ops : list dop) (obs : list dout) : list nat :=
-  if hist_ok [] [] ops then dt_bad ops obs ++ spec_gets_bad ops d_init O
+Definition dt_bad_wf (ops : list dop) (obs : list dout) : list nat :=
+  if wf_hist [] ops then dt_bad ops obs ++ spec_gets_bad ops d_init O
   else [length ops].
